@@ -20,20 +20,25 @@ type faultDB struct {
 }
 
 type plan struct {
-	kind   string
-	k      int
-	writes int
-	fired  bool
-	armed  bool
-	nTx    int // write transactions begun while armed
+	kind    string
+	k       int
+	writes  int
+	fired   bool
+	armed   bool
+	nTx     int // write transactions begun while armed
+	c       int // which commit of the operation the commit-time fault strikes (1 = first)
+	nCommit int
 }
 
 type crashSentinel struct{}
 
 var errInjected = errors.New("verif: injected storage fault")
 
-func (f *faultDB) arm(kind string, k int) {
-	f.plan = &plan{kind: kind, k: k, armed: kind != "" && kind != "none"}
+func (f *faultDB) arm(kind string, k int, c int) {
+	if c < 1 {
+		c = 1
+	}
+	f.plan = &plan{kind: kind, k: k, c: c, armed: kind != "" && kind != "none"}
 }
 func (f *faultDB) disarm() (fired bool, writes int) {
 	if f.plan == nil {
@@ -64,7 +69,8 @@ type ftx struct {
 
 func (t *ftx) Commit() error {
 	p := t.p
-	if p.armed && !p.fired {
+	p.nCommit++
+	if p.armed && !p.fired && p.nCommit == p.c {
 		switch p.kind {
 		case "failcommit":
 			p.fired = true
